@@ -169,11 +169,10 @@ SyncPost(r, x, y, P, N, t) ==
 
 \* (C) [F-clean]: after a successful sync of the key of a DELETED reservation no bound pod carries its annotation
 Cleanable(k, P) == {p \in PNames : P[p].exists /\ P[p].node # "" /\ P[p].ra = k}
-CleanPost(k, P, P2, gate, missing, err, nhit) ==
+CleanPost(k, P, P2, gate, missing, err) ==
     IF gate /\ missing
     THEN /\ \A p \in PNames : IF p \in Cleanable(k, P) THEN P2[p] = P[p] \/ P2[p] = [P[p] EXCEPT !.ra = ""] ELSE P2[p] = P[p]
-         /\ Cardinality(Cleanable(k, P2)) <= nhit                        \* what is left is explained by injected failures
-         /\ (~err => Cleanable(k, P2) = {})
+         /\ (~err => Cleanable(k, P2) = {})         \* (after an error anything may be left: the key is re-queued, see (W))
     ELSE P2 = P
 
 \* (G) garbage collection [C-gc] [D-exp].  READING DECISION: garbage_collection.go also deletes a terminal reservation whose
@@ -203,7 +202,7 @@ StepProp ==
          IN  /\ \A q \in RNames \ {r} : rs'[q] = rs[q]
              /\ step'.hit => step'.err                                        \* a failed write is reported (=> requeue)
              /\ step'.err => rs' = rs                                         \* ... and a failed status update is not applied
-             /\ CleanPost(k, pods, pods', cfg.gate, ~rs[r].exists, step'.err, step'.nhit)
+             /\ CleanPost(k, pods, pods', cfg.gate, ~rs[r].exists, step'.err)
              /\ ~step'.err => SyncPost(r, rs[r], rs'[r], pods, nodes, now)    \* (S)
              /\ k \in quiet => step'.nw = 0                                   \* (I) a second sync without change writes nothing
     /\ step'.op = "gc" => GCPost(rs, rs', termAt, nodes, now, cfg.gcd, step'.nhit)   \* (G)
